@@ -14,6 +14,7 @@ Nothing is written inside ctx.repo: scratch libraries live under ctx.scratch and
 import ast
 import concurrent.futures
 import copy
+import hashlib
 import json
 import os
 import shutil
@@ -23,6 +24,7 @@ from harness.common import sexp
 
 EXE = "c12_model"
 FUEL = 400
+WORKERS = 10
 RUNNER = os.path.join(os.path.dirname(os.path.abspath(__file__)), "c12_runner.py")
 SMALL = ["logic_base", "logic", "nat", "function", "set", "list", "int", "string", "topology", "expr", "gcl", "class"]
 MEDIUM = ["rat", "sat", "hoare", "real"]
@@ -222,12 +224,24 @@ class Scenario:
         return json.dumps({"k": self.kind, "f": self.files if self.kind == "synth" else sorted(self.files), "o": self.ops},
                           sort_keys=True, ensure_ascii=False)
 
-    def final_versions(self):
+    def versions_at(self, j):
+        """version of every file when op j starts"""
         cur = {n: 0 for n in self.files}
-        for op in self.ops:
+        for op in self.ops[:j]:
             if op["op"] == "edit":
                 cur[op["name"]] = op["version"]
         return cur
+
+    def final_versions(self):
+        return self.versions_at(len(self.ops))
+
+    def judged_ops(self):
+        """indices of the loads compared with a fresh process: every load without an injected fault for synthetic
+        libraries (cheap), the final one otherwise"""
+        last = len(self.ops) - 1
+        if self.kind == "synth":
+            return [j for j, op in enumerate(self.ops) if op["op"] == "load" and not op.get("fault")]
+        return [last]
 
 
 def write_lib(root, files, versions, real_libdir, mtimes=None):
@@ -408,7 +422,7 @@ def gen_synth(rng, n):
                 else:
                     rng.shuffle(new)
                 files[victim].append({"imports": imports[victim], "content": new})
-                t_now += rng.choice([1, 5, 60])
+                t_now += rng.choice([1, 5, 60, -7000])      # also an older mtime than the file replaced
                 ops.append({"op": "edit", "name": victim, "version": len(files[victim]) - 1, "mtime": t_now})
                 if rng.random() < 0.4:
                     p = rng.choice(tn)
@@ -465,6 +479,113 @@ def gen_synth(rng, n):
     return out
 
 
+# ---- deterministic battery (every scenario class, synthetic libraries: a process takes a few seconds)
+def bat_theory(t, visible, variant):
+    """Theory `t` of a battery library.  Constants c_t_0, c_t_1; for every theory u visible (transitively imported,
+    or t itself) an axiom that needs c_u_0 and one that needs c_u_1 -- so what an item of t parses to depends on the
+    constants of its INDIRECT imports too.  variant 0: full; 1: c_t_0 replaced by c_t_9; 2: c_t_1 dropped, order changed."""
+    consts = {0: ["c_%s_0" % t, "c_%s_1" % t], 1: ["c_%s_9" % t, "c_%s_1" % t], 2: ["c_%s_0" % t]}[variant]
+    content = [{"ty": "header", "depth": 0, "name": "H_%s_v%d" % (t, variant)}]
+    content += [{"ty": "def.ax", "name": c, "type": "bool"} for c in consts]
+    axs = []
+    for u in visible + [t]:
+        axs.append({"ty": "thm.ax", "name": "x_%s_%s_0" % (t, u), "vars": {}, "prop": "c_%s_0 ⟶ c_%s_0" % (u, u)})
+        axs.append({"ty": "thm.ax", "name": "x_%s_%s_1" % (t, u), "vars": {}, "prop": "c_%s_1 ⟶ c_%s_0" % (u, u)})
+    if variant == 2:
+        axs.reverse()
+    return content + axs
+
+
+def bat_lib(graph):
+    files = {}
+    for t in graph:
+        vis = closure(graph, graph[t])
+        files[t] = [{"imports": list(graph[t]), "content": bat_theory(t, vis, v)} for v in (0, 1, 2)]
+    return files
+
+
+CHAIN = {"ta": [], "tb": ["ta"], "tc": ["tb"], "td": ["tc"]}
+DIAMOND = {"ta": [], "tb": ["ta"], "tc": ["ta"], "td": ["tb", "tc"], "te": ["td"], "tz": []}
+
+
+def battery(rng):
+    """One scenario (or a few) per class of history; only details (which variant of a file an edit installs) depend
+    on the seed.  Every load of these scenarios is compared with a fresh process and with the reference loader."""
+    L = lambda n, lim=None, fault=None: {"op": "load", "name": n, "limit": lim, "fault": fault}  # noqa: E731
+    E = lambda n, v, t: {"op": "edit", "name": n, "version": v, "mtime": t}  # noqa: E731
+    T = lambda n, t: {"op": "touch", "name": n, "mtime": t}  # noqa: E731
+    R = {"op": "reload"}
+    out = []
+    later, earlier = T0 + 5000, T0 - 5000
+
+    def orig_mtime(files, n):
+        return T0 + sorted(files).index(n)
+    # 1. chain of depth 4: edit each file in turn (forwards in time), reload far end, middle and near end
+    for victim in CHAIN:
+        v = rng.choice([1, 2])
+        out.append(Scenario("synth", bat_lib(CHAIN), [L("td"), E(victim, v, later), L("td"), L("tb"), L("ta"), L("tc")],
+                            "battery: chain, edit of %s, then every theory reloaded" % victim))
+    # 2. the new content carries an OLDER timestamp (backup restored, clock corrected): own file / direct / indirect import
+    for victim in ("td", "tc", "ta"):
+        v = rng.choice([1, 2])
+        out.append(Scenario("synth", bat_lib(CHAIN), [L("td"), E(victim, v, earlier), L("td"), L("tc")],
+                            "battery: chain, %s replaced by a file with an older mtime" % victim))
+    # 3. diamond: indirect import through two paths; edit, reload, restore the original file with its original mtime
+    dl = bat_lib(DIAMOND)
+    out.append(Scenario("synth", dl, [L("te"), E("ta", 1, earlier), L("te"), E("tc", rng.choice([1, 2]), later), L("te"), L("td"),
+                                      E("ta", 0, orig_mtime(dl, "ta")), L("te"), L("tb"), E("tc", 0, later + 7), L("td"), L("tz")],
+                        "battery: diamond, edits of indirect imports, original file restored with its original mtime"))
+    # 4. broken libraries: every load must behave as in a fresh process, also after a failed load
+    dang = bat_lib(DIAMOND)
+    dang["tb"][0]["imports"] = ["ta", "no_such_theory"]
+    cyc = bat_lib(DIAMOND)
+    cyc["ta"][0]["imports"] = ["td"]
+    both = bat_lib(DIAMOND)
+    both["ta"][0]["imports"] = ["td"]
+    both["tz"][0]["imports"] = ["no_such_theory"]
+    for lib, what in ((dang, "dangling import"), (cyc, "import cycle"), (both, "cycle and dangling import")):
+        out.append(Scenario("synth", lib, [L("tb"), L("tz"), L("tb"), R, L("tz"), L("te", "start")],
+                            "battery: %s -- failed load, unrelated theory, broken theory again, load_metadata" % what))
+    # a dangling import / a cycle that appears by an edit and is noticed by load_metadata
+    lib = bat_lib(DIAMOND)
+    lib["tb"].append({"imports": ["ta", "no_such_theory"], "content": lib["tb"][0]["content"]})
+    lib["ta"].append({"imports": ["te"], "content": lib["ta"][0]["content"]})
+    out.append(Scenario("synth", lib, [L("tz"), E("tb", 3, later), R, L("tz"), L("ta"), E("tb", 0, later + 3), R, L("td"),
+                                       E("ta", 3, later + 5), R, L("tz"), L("te")],
+                        "battery: dangling import and cycle introduced by edits, load_metadata after each"))
+    # 5. interrupted loads
+    lib = bat_lib(CHAIN)
+    out.append(Scenario("synth", lib, [L("td", None, ["tb", 2]), L("td"), L("tc", ["thm.ax", "x_tc_tb_0"]), T("ta", later),
+                                       L("td", None, ["td", 1]), L("td", None, ["ta", 0]), L("td"), L("ta")],
+                        "battery: loads interrupted at items of an import, of the theory itself, of the root"))
+    # 6. an exception that is in the file (constant defined twice)
+    lib = bat_lib(CHAIN)
+    lib["tb"][0]["content"].append({"ty": "def.ax", "name": "c_tb_0", "type": "bool"})
+    out.append(Scenario("synth", lib, [L("td"), L("ta"), L("td"), L("tb"), E("tb", 1, later), L("td")],
+                        "battery: duplicate constant (raises while parsing), then repaired"))
+    # 7. limits
+    lib = bat_lib(CHAIN)
+    first = lib["td"][0]["content"][0]
+    out.append(Scenario("synth", lib, [L("td", ["thm.ax", "x_td_tb_1"]), L("td", "start"), L("td", ["thm.ax", "missing_c12"]),
+                                       L("td"), L("td", [first["ty"], first["name"]]), L("tb", ["def.ax", "c_tb_1"]),
+                                       L("td", ["thm.ax", "x_td_td_1"]), L("ta", ["def.ax", "c_tb_1"])],
+                        "battery: limits (present, first item, last item, 'start', missing, item of another theory)"))
+    # 8. timestamps without a change of content, load_metadata in between
+    lib = bat_lib(DIAMOND)
+    out.append(Scenario("synth", lib, [L("te"), T("ta", later), L("te"), T("tc", earlier), L("td"), R, L("te"),
+                                       T("te", orig_mtime(lib, "te")), L("te"), T("tb", earlier - 9), T("tb", later + 9), L("tz"), L("te", "start")],
+                        "battery: os.utime forwards / backwards / unchanged, load_metadata"))
+    # 9. the imports of a file change: with load_metadata (must be right), without (known finding)
+    lib = bat_lib(CHAIN)
+    lib["tc"].append({"imports": [], "content": lib["tc"][0]["content"]})
+    lib["tc"].append({"imports": ["ta"], "content": lib["tc"][0]["content"]})
+    out.append(Scenario("synth", lib, [L("td"), E("tc", 3, later), R, L("td"), L("tc"), E("tc", 4, later + 4), R, L("td")],
+                        "battery: imports of a file edited, load_metadata called"))
+    out.append(Scenario("synth", copy.deepcopy(lib), [L("td"), E("tc", 3, later), L("td")],
+                        "battery: imports of a file edited, load_metadata NOT called (known finding)"))
+    return out
+
+
 # ------------------------------------------------------------------ running the implementation
 def run_runner(ctx, spec, tag, timeout=900):
     p = os.path.join(ctx.scratch, "spec-%s.json" % tag)
@@ -485,17 +606,15 @@ def run_runner(ctx, spec, tag, timeout=900):
 
 
 def prepare(ctx, sc, idx, src):
-    """Scratch libraries + runner specs for the history run (H) and the fresh run (F)."""
+    """Scratch libraries + runner specs: the history run (H) and, for every judged load j, a fresh run (F_j) that
+    does only that load on the files as they are when op j starts."""
     real_libdir = os.path.join(ctx.repo, "library")
     interest = sorted(src["modules"])
-    hspec = {"repo": ctx.repo, "libroot": None, "interest": interest, "ops": []}
-    fspec = {"repo": ctx.repo, "libroot": None, "interest": interest, "ops": [copy.deepcopy(sc.ops[-1])]}
+    hspec = {"repo": ctx.repo, "libroot": None, "interest": interest, "ops": [], "dump_all": sc.kind == "synth"}
     if sc.kind != "real":
         hroot = os.path.join(ctx.scratch, "h%s" % idx)
-        froot = os.path.join(ctx.scratch, "f%s" % idx)
         write_lib(hroot, sc.files, {n: 0 for n in sc.files}, real_libdir)
-        write_lib(froot, sc.files, sc.final_versions(), real_libdir)
-        hspec["libroot"], fspec["libroot"] = hroot, froot
+        hspec["libroot"] = hroot
     for j, op in enumerate(sc.ops):
         op = copy.deepcopy(op)
         if op["op"] == "edit":
@@ -503,15 +622,26 @@ def prepare(ctx, sc, idx, src):
             write_version(srcp, op["name"], sc.files[op["name"]][op["version"]], real_libdir)
             op["src"] = srcp
         hspec["ops"].append(op)
-    return hspec, fspec
+    fspecs = {}
+    for j in sc.judged_ops():
+        fspec = {"repo": ctx.repo, "libroot": None, "interest": interest, "ops": [dict(copy.deepcopy(sc.ops[j]), fault=None)],
+                 "dump_all": sc.kind == "synth"}
+        if sc.kind != "real":
+            vs = sc.versions_at(j)
+            froot = os.path.join(ctx.scratch, "f%s-%s" % (idx, hashlib.sha1(json.dumps(vs, sort_keys=True).encode()).hexdigest()[:10]))
+            if not os.path.isdir(froot):
+                write_lib(froot, sc.files, vs, real_libdir)
+            fspec["libroot"] = froot
+        fspecs[j] = fspec
+    return hspec, fspecs
 
 
-def fresh_key(sc):
-    fin = sc.ops[-1]
+def fresh_key(sc, j):
+    op = sc.ops[j]
     if sc.kind == "real":
-        return json.dumps(["real", fin["name"], fin["limit"]])
-    fv = sc.final_versions()
-    return json.dumps([sc.kind, {n: sc.files[n][fv[n]] for n in sc.files}, fin["name"], fin["limit"]], sort_keys=True, ensure_ascii=False)
+        return json.dumps(["real", op["name"], op["limit"]])
+    vs = sc.versions_at(j)
+    return json.dumps([sc.kind, {n: sc.files[n][vs[n]] for n in sc.files}, op["name"], op["limit"]], sort_keys=True, ensure_ascii=False)
 
 
 # ------------------------------------------------------------------ model side
@@ -649,7 +779,7 @@ def parse_model(line, mv):
     if x == "bad-op":
         return None
     ops = []
-    for res, evs in x[0][mv.npre:]:
+    for res, evs, thy_j in x[0][mv.npre:]:
         reads, mods = [], []
         for ev in evs:
             if ev == "meta":
@@ -658,42 +788,46 @@ def parse_model(line, mv):
                 reads.append(mv.names[int(ev[1]) - 1])
             elif ev[0] == "exec":
                 mods.append(mv.mods[int(ev[1]) - 1])
-        ops.append({"res": res, "reads": reads, "mods": mods})
+        ops.append({"res": res, "reads": reads, "mods": mods,
+                    "thy": None if thy_j == "none" else [list(mv.unitem(int(i)))[::2] for i in thy_j]})
     thy = None if x[1] == "none" else [mv.unitem(int(i)) for i in x[1]]
     return {"ops": ops, "thy": thy}
 
 
 # ------------------------------------------------------------------ judging one scenario
-def differs(h, f):
-    """property oracle (a): outcome and theory after the final load, history vs fresh process"""
-    hres, fres = h["ops"][-1]["res"], f["ops"][-1]["res"]
+def differs(hop, fop):
+    """property oracle (a): outcome and theory after one load, in the history vs in a fresh process"""
+    hres, fres = hop["res"], fop["res"]
     hc = "ok" if hres == "ok" else (hres["type"], hres["msg"][:80])
     fc = "ok" if fres == "ok" else (fres["type"], fres["msg"][:80])
     if hc != fc:
         return "outcome after the history: %s; in a fresh process: %s" % (hc, fc)
     if hc != "ok" and not (hres["type"] == "TheoryException" and "limit" in hres["msg"]):
         return None       # both fail the same way: theory.thy is whatever it was before
-    hd, fd = h["final"]["dump"], f["final"]["dump"]
-    if hd == fd:
+    if hop.get("digest") == fop.get("digest"):
         return None
-    if hd is None or fd is None:
-        return "theory.thy is %s after the history and %s in a fresh process" % ("None" if hd is None else "set", "None" if fd is None else "set")
-    for part in ("types", "consts", "theorems", "attributes", "overload", "keys"):
-        if hd[part] != fd[part]:
-            a, b = {json.dumps(x) for x in hd[part]}, {json.dumps(x) for x in fd[part]}
-            return "%s differ: only after the history %s; only in a fresh process %s" % (part, sorted(a - b)[:4], sorted(b - a)[:4])
-    return "dumps differ"
+    hd, fd = hop.get("dump"), fop.get("dump")
+    if hd is not None and fd is not None:
+        for part in ("types", "consts", "theorems", "attributes", "overload", "keys"):
+            if hd[part] != fd[part]:
+                a, b = {json.dumps(x, ensure_ascii=False) for x in hd[part]}, {json.dumps(x, ensure_ascii=False) for x in fd[part]}
+                return "%s differ: only after the history %s; only in a fresh process %s" % (part, sorted(a - b)[:4], sorted(b - a)[:4])
+    hi, fi = hop.get("thy_items"), fop.get("thy_items")
+    if hi is None or fi is None:
+        return "theory.thy is %s after the history and %s in a fresh process" % ("None" if hi is None else "set", "None" if fi is None else "set")
+    a, b = {tuple(x) for x in hi}, {tuple(x) for x in fi}
+    return "theories differ: items only after the history %s; only in a fresh process %s" % (sorted(a - b)[:4], sorted(b - a)[:4])
 
 
-def reference(mv):
-    """Independent reference loader (plain Python over the files of the scenario, final versions): outcome and
-    item list of theory.thy after the final load.  Synthetic libraries: an axiom parses iff the constants it
+def reference(mv, j):
+    """Independent reference loader (plain Python over the files of the scenario as they are when op j starts):
+    outcome and item list of theory.thy after the load op j.  Synthetic libraries: an axiom parses iff the constants it
     mentions are visible, a constant defined twice in a file raises.  Real theories: the per-item error flags
     are taken from the implementation (item contents are not interpreted here)."""
     sc = mv.sc
-    cur = sc.final_versions() if sc.kind != "real" else {n: 0 for n in mv.names}
+    cur = sc.versions_at(j) if sc.kind != "real" else {n: 0 for n in mv.names}
     files = {n: mv.files[n][cur[n]] for n in mv.names}
-    fin = sc.ops[-1]
+    fin = sc.ops[j]
     done = set()
 
     def visit(n, path):
@@ -777,16 +911,16 @@ def reference(mv):
     return "ok", (imp_items, [[fin["name"], i] for i in range(stop) if own[i]])
 
 
-def judge_spec(ctx, sc, run, mv, which):
-    """property oracle (c): outcome and items of theory.thy against the reference loader"""
-    kind, exp = reference(mv)
-    got = map_res(run["ops"][-1]["res"])
-    fin = sc.ops[-1]
+def judge_spec(ctx, sc, j, op_rec, mv, which):
+    """property oracle (c): outcome and items of theory.thy after load op j against the reference loader"""
+    kind, exp = reference(mv, j)
+    got = map_res(op_rec["res"])
+    fin = sc.ops[j]
     what = None
     if got != kind:
-        what = "outcome %s (%s), the library says %s" % (got, run["ops"][-1]["res"], kind)
+        what = "outcome %s (%s), the library says %s" % (got, op_rec["res"], kind)
     elif kind == "ok":
-        items = run["final"]["thy_items"] or []
+        items = op_rec.get("thy_items") or []
         own = [x for x in items if x[0] == fin["name"]]
         imp = [x for x in items if x[0] != fin["name"]]
         if sorted(map(tuple, imp)) != sorted(map(tuple, exp[0])):
@@ -795,25 +929,27 @@ def judge_spec(ctx, sc, run, mv, which):
         elif own != exp[1]:
             what = "own items loaded %s..., expected %s... (%d / %d items)" % (own[-3:], exp[1][-3:], len(own), len(exp[1]))
     if what is not None:
-        key = STALE_IMPORTS if (which == "history" and stale_imports_class(sc)) else (
-            "spec:" + classify_history(sc)[8:] if which == "history" else "spec-fresh:" + json.dumps(
-                [fin["name"], fin["limit"]], ensure_ascii=False) + ("" if sc.kind == "real" else "|" + classify_history(sc)[-200:]))
+        if which == "history":
+            key = "spec:" + classify_history(sc, j) if not stale_imports_class(sc, j) else STALE_IMPORTS
+        else:
+            key = "spec-fresh:" + json.dumps([fin["name"], fin["limit"]], ensure_ascii=False) + (
+                "" if sc.kind == "real" else "|" + hashlib.sha1(fresh_key(sc, j).encode("utf-8")).hexdigest()[:12])
         ctx.violation(key,
             "load_theory(%s, limit=%s) in a %s: %s. History: %s (%s)" % (
                 fin["name"], fin["limit"], "fresh process" if which == "fresh" else "process with a history", what,
-                json.dumps(sc.ops if which == "history" else sc.ops[-1:], ensure_ascii=False)[:500], sc.note),
-            {"scenario": sc.to_json(), "difference": what, "which": which})
+                json.dumps(sc.ops[:j + 1] if which == "history" else [sc.ops[j]], ensure_ascii=False)[:500], sc.note),
+            {"scenario": sc.to_json(), "difference": what, "which": which, "op": j})
     return what
 
 
 STALE_IMPORTS = "stale-imports:imports-of-a-file-edited-without-load_metadata"
 
 
-def stale_imports_class(sc):
-    """an edit changes the `imports` of a file and no load_metadata follows before the final load"""
+def stale_imports_class(sc, j=None):
+    """an edit changes the `imports` of a file and no load_metadata follows before load op j (default: the last)"""
     pending = False
     cur = {n: 0 for n in sc.files}
-    for op in sc.ops:
+    for op in sc.ops[:len(sc.ops) if j is None else j]:
         if op["op"] == "edit":
             if sc.files[op["name"]][op["version"]]["imports"] != sc.files[op["name"]][cur[op["name"]]]["imports"]:
                 pending = True
@@ -823,27 +959,26 @@ def stale_imports_class(sc):
     return pending
 
 
-def classify_history(sc):
+def classify_history(sc, j=None):
     """Key of a violation: the class of the history when a whole class triggers the defect, else the history."""
-    if stale_imports_class(sc):
+    if stale_imports_class(sc, j):
         return STALE_IMPORTS
-    return "history:" + json.dumps(sc.ops, sort_keys=True, ensure_ascii=False) + ("" if sc.kind == "real" else
-                                                                                   "|lib:" + json.dumps(sc.files, sort_keys=True, ensure_ascii=False)[:400])
+    ops = sc.ops if j is None else sc.ops[:j + 1]
+    return "history:" + json.dumps(ops, sort_keys=True, ensure_ascii=False) + (
+        "" if sc.kind == "real" else "|lib:" + hashlib.sha1(json.dumps(sc.files, sort_keys=True, ensure_ascii=False).encode("utf-8")).hexdigest()[:12])
 
 
-def judge(ctx, sc, h, f, src, label):
-    if "error" in h or "error" in f:
-        ctx.broken("runner:c12:" + label, "history run: %s / fresh run: %s" % (h.get("error"), f.get("error")))
-        return None
-    d = differs(h, f)
+def judge(ctx, sc, j, hop, fop, label):
+    """oracle (a) for load op j"""
+    d = differs(hop, fop)
     if d is not None:
-        ctx.violation(classify_history(sc), "load_theory(%s, limit=%s) %s. History: %s (%s)" % (
-            sc.ops[-1]["name"], sc.ops[-1]["limit"], d, json.dumps(sc.ops, ensure_ascii=False)[:600], sc.note),
-            {"scenario": sc.to_json(), "difference": d})
+        ctx.violation(classify_history(sc, j), "load_theory(%s, limit=%s) [step %d] %s. History: %s (%s)" % (
+            sc.ops[j]["name"], sc.ops[j]["limit"], j, d, json.dumps(sc.ops[:j + 1], ensure_ascii=False)[:700], sc.note),
+            {"scenario": sc.to_json(), "difference": d, "op": j})
     return d
 
 
-def correspond(ctx, sc, h, f, src, model_out, mv, label):
+def correspond(ctx, sc, h, model_out, mv, label):
     m = parse_model(model_out, mv) if model_out else None
     if m is None:
         ctx.broken("correspondence:c12:driver", "model driver gave no answer for %s" % label)
@@ -857,16 +992,15 @@ def correspond(ctx, sc, h, f, src, model_out, mv, label):
             bad.append("op %d %s: files parsed impl %s model %s" % (j, sc.ops[j], po["reads"], mo["reads"]))
         if po["mods"] != mo["mods"]:
             bad.append("op %d %s: modules executed impl %s model %s" % (j, sc.ops[j], po["mods"], mo["mods"]))
-    fv = None
-    ht = h["final"]["thy_items"]
-    if ht is not None and m["thy"] is not None:
-        mt = [[n, i] for (n, v, i) in m["thy"]]
-        if ht != mt:
-            k = next((k for k in range(min(len(ht), len(mt))) if ht[k] != mt[k]), min(len(ht), len(mt)))
-            bad.append("final theory items differ at position %d: impl %s model %s (lengths %d / %d)" % (
-                k, ht[k:k + 3], mt[k:k + 3], len(ht), len(mt)))
-    elif (ht is None) != (m["thy"] is None):
-        bad.append("final theory: impl %s model %s" % ("None" if ht is None else "set", "None" if m["thy"] is None else "set"))
+        if sc.ops[j]["op"] == "load":
+            ht, mt = po.get("thy_items"), mo["thy"]
+            if ht is not None and mt is not None:
+                if ht != mt:
+                    k = next((k for k in range(min(len(ht), len(mt))) if ht[k] != mt[k]), min(len(ht), len(mt)))
+                    bad.append("op %d %s: theory items differ at position %d: impl %s model %s (lengths %d / %d)" % (
+                        j, sc.ops[j], k, ht[k:k + 3], mt[k:k + 3], len(ht), len(mt)))
+            elif (ht is None) != (mt is None):
+                bad.append("op %d: theory impl %s model %s" % (j, "None" if ht is None else "set", "None" if mt is None else "set"))
     if bad:
         ctx.broken("correspondence:c12:%s" % label, "; ".join(bad[:3]) + " | history " + json.dumps(sc.ops, ensure_ascii=False)[:300])
         ctx.coverage["disagreements_checked"] += 1
@@ -875,31 +1009,35 @@ def correspond(ctx, sc, h, f, src, model_out, mv, label):
 
 
 def run_scenarios(ctx, scs, src, label):
-    """Runs every scenario (history + fresh process, in parallel), judges and compares with the model."""
+    """Runs every scenario (one history process + one fresh process per judged load, in parallel), judges every
+    judged load against the fresh process and the reference loader, and compares every step with the model."""
     jobs = {}
     fresh_cache = {}
     specs = []
     for idx, sc in enumerate(scs):
-        hspec, fspec = prepare(ctx, sc, "%s%d" % (label, idx), src)
-        specs.append((hspec, fspec))
-    with concurrent.futures.ThreadPoolExecutor(max_workers=8) as ex:
+        specs.append(prepare(ctx, sc, "%s%d" % (label, idx), src))
+    with concurrent.futures.ThreadPoolExecutor(max_workers=WORKERS) as ex:
         for idx, sc in enumerate(scs):
-            hspec, fspec = specs[idx]
+            hspec, fspecs = specs[idx]
             jobs[("h", idx)] = ex.submit(run_runner, ctx, hspec, "%s-h%d" % (label, idx))
-            fk = fresh_key(sc)
-            if fk not in fresh_cache:
-                fresh_cache[fk] = ex.submit(run_runner, ctx, fspec, "%s-f%d" % (label, idx))
-            jobs[("f", idx)] = fresh_cache[fk]
+        for idx, sc in enumerate(scs):
+            hspec, fspecs = specs[idx]
+            for j, fspec in fspecs.items():
+                fk = fresh_key(sc, j)
+                if fk not in fresh_cache:
+                    fresh_cache[fk] = ex.submit(run_runner, ctx, fspec, "%s-f%d-%d" % (label, idx, j))
+                jobs[("f", idx, j)] = fresh_cache[fk]
         results = {}
-        for n_done, (k, j) in enumerate(jobs.items()):
-            results[k] = j.result()
-            if (n_done + 1) % 20 == 0:
-                ctx.log("%s: %d/%d subprocess runs collected" % (label, n_done + 1, len(jobs)))
+        for n_done, (k, jb) in enumerate(jobs.items()):
+            results[k] = jb.result()
+            if (n_done + 1) % 40 == 0:
+                ctx.log("%s: %d/%d subprocess results collected (%d processes)" % (label, n_done + 1, len(jobs), len(fresh_cache) + len(scs)))
+    ctx.count("processes", len(fresh_cache) + len(scs))
     lines, views = [], []
     for idx, sc in enumerate(scs):
-        h, f = results[("h", idx)], results[("f", idx)]
+        h = results[("h", idx)]
         flags = {}
-        for r in (f, h):
+        for r in [results[("f", idx, j)] for j in specs[idx][1]] + [h]:
             if "final" in r:
                 for n, fl in r["final"]["flags"].items():
                     flags.setdefault(n, fl)
@@ -909,18 +1047,25 @@ def run_scenarios(ctx, scs, src, label):
     out = ctx.lean_driver(EXE, lines) if lines else []
     nviol = 0
     for idx, sc in enumerate(scs):
-        h, f = results[("h", idx)], results[("f", idx)]
+        h = results[("h", idx)]
+        lab = "%s-%d" % (label, idx)
         kinds = [o["op"] + (":fault" if o.get("fault") else "") for o in sc.ops[:-1]]
         ctx.case(sc.key(), nontrivial=len(sc.ops) >= 2)
         ctx.count("%s:%s" % (sc.kind, "+".join(sorted(set(kinds))) or "fresh"))
-        d = judge(ctx, sc, h, f, src, "%s-%d" % (label, idx))
-        if d:
-            nviol += 1
-        if "error" not in h and "error" not in f:
-            ctx.count("final:" + map_res(h["ops"][-1]["res"]))
-            if judge_spec(ctx, sc, f, views[idx], "fresh") or judge_spec(ctx, sc, h, views[idx], "history"):
+        if "error" in h:
+            ctx.broken("runner:c12:" + lab, "history run: %s" % h.get("error"))
+            continue
+        for j in sc.judged_ops():
+            f = results[("f", idx, j)]
+            if "error" in f:
+                ctx.broken("runner:c12:" + lab, "fresh run for step %d: %s" % (j, f.get("error")))
+                continue
+            ctx.count("judged-load:" + map_res(h["ops"][j]["res"]))
+            if judge(ctx, sc, j, h["ops"][j], f["ops"][0], lab):
                 nviol += 1
-            correspond(ctx, sc, h, f, src, out[idx] if out else None, views[idx], "%s-%d" % (label, idx))
+            if judge_spec(ctx, sc, j, f["ops"][0], views[idx], "fresh") or judge_spec(ctx, sc, j, h["ops"][j], views[idx], "history"):
+                nviol += 1
+        correspond(ctx, sc, h, out[idx] if out else None, views[idx], lab)
     if out is None:
         ctx.broken("correspondence:c12:driver", "model driver unavailable")
     return nviol
@@ -944,7 +1089,15 @@ def load_corpus(ctx):
 
 def run(ctx):
     ctx.coverage["rule"] = (
-        "a case is one scripted history ending in load_theory(name, limit), run in its own Python process and compared with a "
+        "DETERMINISTIC BATTERY (every run, every seed; synthetic chain ta<-tb<-tc<-td and diamond libraries whose axioms need "
+        "constants of direct AND indirect imports): edit of each file of the chain in turn then every theory reloaded; new content "
+        "with an OLDER mtime for the own file / a direct / an indirect import; diamond with edits, restore of the original file "
+        "with its original mtime; dangling import / cycle / both with 'failed load, unrelated theory, broken theory, load_metadata'; "
+        "dangling import and cycle introduced by edits; loads interrupted at items of an import / the theory / the root; duplicate "
+        "constant; limits (present, first, last, start, missing, foreign); os.utime forwards / backwards / unchanged; imports edited "
+        "with and without load_metadata. EVERY load of a synthetic scenario is compared with its own fresh process (files as they "
+        "are at that step), with the reference loader and with the Lean model (outcome, files parsed, theory items). "
+        "RANDOM REMAINDER: a case is one scripted history ending in load_theory(name, limit), run in its own Python process and compared with a "
         "fresh process doing only the final load and with the Lean model: real library (prior loads with limits, imports of "
         "modules that load theories as a side effect, a load interrupted by an injected exception, fresh loads of smt/verit), "
         "scratch copies of small real theories (os.utime forwards and backwards, load_metadata, faults) and random synthetic "
@@ -972,13 +1125,20 @@ def run(ctx):
         "Lean theorems are about histories that keep file contents (touch, loads, faulted loads, imports, load_metadata); edits are "
         "covered by the subprocess oracles and the model correspondence only",
         "a change of a file's `imports` needs basic.load_metadata() before the next load (known finding, generated and keyed)",
-        "the Python package smt/ of the repository is shadowed by site-packages and is not imported in histories"]
+        "the Python package smt/ of the repository is shadowed by site-packages and is not imported in histories",
+        "a file replaced by DIFFERENT content with EXACTLY the mtime it was cached under is outside the property (a timestamp cache "
+        "cannot see it; 'a changed file is re-read' presupposes a changed timestamp) and is not generated; any other mtime, older or "
+        "newer, must cause a re-read and is generated"]
     corpus = load_corpus(ctx)
     if corpus:
         run_scenarios(ctx, corpus, src, "corpus")
     rng = ctx.rng("histories")
     heavy = heavy_histories(src, ctx.tier)
-    scs = gen_real(rng, src, ctx.scale(3, 22), heavy) + gen_copy(rng, src, ctx.scale(2, 10)) + gen_synth(rng, ctx.scale(5, 38))
+    bat = battery(ctx.rng("battery"))
+    for sc in bat[:1] + bat[7:8]:
+        ctx.sample({"kind": sc.kind, "ops": sc.ops, "note": sc.note})
+    run_scenarios(ctx, bat, src, "battery")
+    scs = gen_real(rng, src, ctx.scale(2, 22), heavy) + gen_copy(rng, src, ctx.scale(1, 10)) + gen_synth(rng, ctx.scale(4, 38))
     for sc in scs[:2] + scs[-2:]:
         ctx.sample({"kind": sc.kind, "ops": sc.ops, "note": sc.note})
     run_scenarios(ctx, scs, src, "gen")
@@ -1008,7 +1168,10 @@ MANIFEST = {
     "note": "Trusted: Lean kernel, propext/Classical.choice/Quot.sound, the harness (tracing wrappers, ast scan of module-level "
             "imports; function-level imports not followed), the reference loader. Item contents are opaque (parse result = function "
             "of item and visible items). Theorems cover content-preserving histories; edits of files that keep the imports "
-            "(including edits of imported files, fix C12-3) are covered by the subprocess oracles and the model correspondence only. "
+            "(including edits of indirectly imported files and new content with an older mtime, fix C12-3) are covered by the "
+            "deterministic battery (subprocess oracles, model correspondence), by changed_file_reread (dependency timestamps recorded "
+            "for all transitive imports; older timestamp = changed) and by one concrete Lean instance, not by a general theorem. "
+            "Same-mtime-different-content is out of scope. "
             "Known finding: edited `imports` are not re-read without load_metadata (stale_imports_counterexample). Model fuel: "
             "theorems hold for every fuel, with 'ran out of fuel' as an explicit outcome; sufficiency of fuel is not proved. "
             "Model = code with fixes C12-1..4; single user (master).",
